@@ -199,7 +199,10 @@ def run(chk):
 
     def is_list(e):
         tgt = strip(e)
-        return (field_of(e) == "sixels") or (tgt[0] == "var" and tgt[2] == "vec")
+        if field_of(e) == "sixels":
+            return True
+        # a local that holds `&mut layers[0].sixels` (whatever it is called)
+        return tgt[0] == "var" and isinstance(tgt[1], int) and _alias_of_field(b, {"copy": {"l": tgt[1]}}, "sixels")
     for bi, t in b.calls():
         path = t["callee"].get("resolved") or ""
         if not t["args"]:
